@@ -223,6 +223,13 @@ func (e *Engine) load(patterns []string, dir string) error {
 			e.scopePkgs[path] = true
 		}
 	}
+	e.u.isLibType = func(t types.Type) bool {
+		if p, ok := t.(*types.Pointer); ok {
+			t = p.Elem()
+		}
+		n, ok := t.(*types.Named)
+		return ok && n.Obj().Pkg() != nil && e.scopePkgs[n.Obj().Pkg().Path()]
+	}
 	// named types for typeid("...")
 	e.typeNames = map[string]types.Type{}
 	for _, p := range prog.AllPackages() {
@@ -387,6 +394,23 @@ func (e *Engine) verifyFunction(fn *ssa.Function, fc *FuncContract) (res *FuncRe
 	for _, ga := range fc.GhostEntry {
 		fv.ghostAssign(st, ga, env)
 	}
+	// case splits requested by the contract: verify the body once per case
+	starts := []*State{st}
+	for _, sp := range fc.Split {
+		se, err := parseSpecExpr(sp)
+		if err != nil {
+			panic(specFail(err.Error()))
+		}
+		var next []*State
+		for _, s0 := range starts {
+			c := fv.evalBool(se, fv.envFor(s0))
+			s1 := s0.clone()
+			s0.assume(c)
+			s1.assume("(not " + c + ")")
+			next = append(next, s0, s1)
+		}
+		starts = next
+	}
 	rn := resultNames(fn.Signature.Results())
 	fr.ret = func(st *State, rs []Val) {
 		fv.paths++
@@ -417,7 +441,11 @@ func (e *Engine) verifyFunction(fn *ssa.Function, fc *FuncContract) (res *FuncRe
 			fv.addObl(st, "ensures", fmt.Sprintf("%s@path%d", en.Name, fv.paths), g, en.Src, en.Tags)
 		}
 	}
-	fv.execBlock(st, fn.Blocks[0], nil)
+	for _, s0 := range starts {
+		s0.fr.ret = fr.ret
+		s0.fr.entry = entry
+		fv.execBlock(s0, fn.Blocks[0], nil)
+	}
 	// lemmas: pure implications over the contract vocabulary
 	for _, lm := range fc.Lemmas {
 		ls := entry.clone()
